@@ -66,17 +66,19 @@ func cmdVC(args []string) {
 			fmt.Printf("ENGINE-ERROR: function %s not found\n", name)
 			continue
 		}
-		g, err := GenFunc(prog, f, fc, pc)
+		gs, err := GenFuncAll(prog, f, fc, pc)
 		if err != nil {
 			fmt.Printf("OUTSIDE-SUBSET: %v\n", err)
 			continue
 		}
-		if *verbose {
-			for _, n := range sortedKeys(g.notes) {
-				fmt.Printf("  note[%s]: %s\n", g.fname, n)
+		for _, g := range gs {
+			if *verbose {
+				for _, n := range sortedKeys(g.notes) {
+					fmt.Printf("  note[%s]: %s\n", g.fname, n)
+				}
 			}
+			all = append(all, g.obls...)
 		}
-		all = append(all, g.obls...)
 	}
 	t1 := time.Now()
 	discharge(all, "/tmp/govc-work", *timeout, *timeout, false, 8)
